@@ -54,9 +54,11 @@ func (c retryCfg) key() string {
 type event struct {
 	Seq    int  `json:"seq"`
 	Status int  `json:"status"`
-	Stray  bool `json:"stray,omitempty"`   // new call of an ended sequence arrives with a fresh txn id
-	GapS   int  `json:"gap_s,omitempty"`   // virtual seconds before this response (policy mode)
-	TellS  bool `json:"as_told,omitempty"` // gap = the cool-down the gateway announced for this sequence
+	Stray  bool `json:"stray,omitempty"` // new call of an ended sequence arrives with a fresh txn id
+	// the client gives up the retry it was asked for; the id is used again by a new call (txn id == sequence id)
+	Abandon bool `json:"abandon,omitempty"`
+	GapS    int  `json:"gap_s,omitempty"`   // virtual seconds before this response (policy mode)
+	TellS   bool `json:"as_told,omitempty"` // gap = the cool-down the gateway announced for this sequence
 	// observations (filled while running)
 	TxnID string `json:"txn_id,omitempty"`
 	Retry bool   `json:"retry_requested"`
@@ -457,6 +459,14 @@ func (rn *runner) runHistory(idx int, c retryCfg, s sut, prefix string, evs []ev
 		}
 		isNewCall := false
 		switch {
+		case ev.Abandon && pendingRetry[ev.Seq]:
+			// the statement says nothing about a sequence that is neither exhausted nor ended by a response: the
+			// gateway may still count the new call's responses into it, or have forgotten it
+			ev.TxnID = seqID
+			isNewCall = true
+			m.mayForget()
+			shape["abandoned"]++
+			v.Count("abandoned_sequences_whose_id_is_reused", 1)
 		case pendingRetry[ev.Seq] || ev.Stray:
 			attemptNo[ev.Seq]++
 			ev.TxnID = fmt.Sprintf("%s-a%d", seqID, attemptNo[ev.Seq])
@@ -602,6 +612,7 @@ func genEvents(r *sim.Rand, c retryCfg) []event {
 			ev.Status = sim.Pick(r, other)
 		}
 		ev.Stray = r.Chance(1, 10)
+		ev.Abandon = r.Chance(1, 8)
 		if c.Mode == "policy" {
 			switch r.Intn(10) {
 			case 0:
@@ -756,6 +767,52 @@ func main() {
 	v.Count("exhaustive_histories", hi-lo)
 	v.Extra["exhaustive_bound"] = fmt.Sprintf("all words of length 1..%d: space A (1 id x 4 statuses) and space B (2 ids x {500,200}), attempts 1-4, both modes, cool-down 0", L)
 	v.Exhaustive = true
+
+	// space C: one id, every word over {500,200} x {next response of the closed loop, stray txn id, abandoned retry +
+	// new call with the same id}
+	LC := args.Pick(6, 8)
+	wcC := wordCount(6, LC)
+	var cfgsC []retryCfg
+	for _, mode := range []string{"flows", "policy"} {
+		for a := 1; a <= 3; a++ {
+			cfgsC = append(cfgsC, retryCfg{Mode: mode, Attempts: a, Ranges: [][2]int{{500, 599}}})
+		}
+	}
+	lo, hi = args.Share(len(cfgsC) * wcC)
+	cur, curCfg = nil, -1
+	for n := lo; n < hi; n++ {
+		ci, wi := n/wcC, n%wcC
+		c := cfgsC[ci]
+		if ci != curCfg {
+			if cur != nil {
+				cur.close()
+			}
+			var err error
+			if cur, err = rn.build(c, root); err != nil {
+				v.Violate("C17/harness/config-rejected", err.Error(), replay{Case: -1, Cfg: c})
+				break
+			}
+			curCfg = ci
+		}
+		w := nthWord(6, LC, wi)
+		evs := make([]event, len(w))
+		for i, x := range w {
+			evs[i] = event{Seq: 0, Status: []int{500, 200}[x&1], Stray: x>>1 == 1, Abandon: x>>1 == 2}
+		}
+		idx := -(100_000_000 + n)
+		v.Eval(1)
+		sim.Guard(v, "C17/panic/"+c.Mode, replay{Case: idx, Seed: args.Seed, Cfg: c, Events: evs}, func() {
+			rn.runHistory(idx, c, cur, fmt.Sprintf("x%d", n), evs)
+		})
+		if c.Mode == "policy" {
+			clk.Advance(1000*time.Hour, nil)
+		}
+	}
+	if cur != nil {
+		cur.close()
+	}
+	v.Count("exhaustive_histories_space_C", hi-lo)
+	v.Extra["exhaustive_bound_space_C"] = fmt.Sprintf("all words of length 1..%d over {500,200} x {closed-loop, stray txn id, abandoned retry + id reuse}, one id, attempts 1-3, both modes", LC)
 
 	// random part
 	nRand := args.Pick(4000, 160000)
